@@ -8,6 +8,9 @@ import Ark.Model.DrvC19
 import Ark.Model.DrvC07
 import Ark.Model.DrvC05
 import Ark.Model.DrvC13
+import Ark.Model.DrvC14
+import Ark.Model.DrvC08
+import Ark.Model.DrvC18
 /-  arkdrv: one op per line on stdin: `<prop> <op> args… => <impl output>` → one line `model|verdict` -/
 open Ark
 
@@ -26,6 +29,18 @@ def dispatch (st : DrvState) (line : String) : DrvState × String :=
   match inp.splitOn " " with
   | "C15" :: op :: args =>
     match DrvC15.run op args impl with
+    | some (m, s) => (st, m ++ "|" ++ s)
+    | none => (st, "bad-op")
+  | "C14" :: op :: args =>
+    match DrvC14.run op args impl with
+    | some (m, s) => (st, m ++ "|" ++ s)
+    | none => (st, "bad-op")
+  | "C08" :: op :: args =>
+    match DrvC08.run op args impl with
+    | some (m, s) => (st, m ++ "|" ++ s)
+    | none => (st, "bad-op")
+  | "C18" :: op :: args =>
+    match DrvC18.run op args impl with
     | some (m, s) => (st, m ++ "|" ++ s)
     | none => (st, "bad-op")
   | "C05" :: op :: args =>
